@@ -505,6 +505,8 @@ def arena_name(it_val):
             v = v.cell.value
         else:
             break
+    if isinstance(v, UnkV):
+        return v.name.lstrip("*")
     return v.arena.name if isinstance(v, absint.TableV) else None
 
 
